@@ -25,3 +25,13 @@ CHECKS['C08'] = ('model_checking',
   'Every attack graph with <=3 nodes (16 node kinds, every subset of the n^2 edges incl. self-loops and cycles) and every loop-free 4-node graph over 5 kinds is analysed by the real apriori analyser under EVERY permutation of graph.nodes (the schedule of its worklist); labels must equal the greatest fixed point of the stated equations and be identical across orders. The reference iteration is itself validated against brute force over all labellings.',
   'Trusted: 60-line reference (validated by brute force each run). TTC "is a probability distribution" = named function other than Enabled/Disabled; arithmetic TTCs outside the alphabet.',
   'DESIGN.md 3/C08')
+CHECKS['C09'] = ('model_checking',
+  'explicit-state BFS over API-call histories of real attack graphs, structural invariants in every state plus functional reference per operation, deviation-bounded',
+  'Every history (to the reported depth / deviation budget) of generate, regenerate, add/remove node, attach/add/remove attacker, compromise/undo, analyse, prune, deep copy and save/load over graphs generated from two small languages is executed on the real code; in every state all child/parent references are inside the graph and mirrored, lookups by id / full name / attacker id are exact for present and for stale keys, attackers and nodes only reference live objects; a regenerated graph must equal a freshly generated one.',
+  'Trusted: CPython; ids chosen automatically are only constrained to be unique; list orders not compared.',
+  'DESIGN.md 3/C09')
+CHECKS['C11'] = ('model_checking',
+  'explicit-state BFS over compromise/undo/attach/add/remove-attacker histories on real attack graphs, invariant + functional reference',
+  'Same engine as C09 with an attacker-heavy alphabet: in every reached state reached_attack_steps and compromised_by (and is_compromised_by) agree; repeated compromise / vacuous undo change nothing; remove_attacker leaves no node compromised by it; attach_attackers creates exactly one attacker per model attacker whose entry points and reached steps are exactly the existing nodes named.',
+  'Trusted: CPython. Bounded by depth / deviations / 3 attackers as reported.',
+  'DESIGN.md 3/C11')
